@@ -451,11 +451,10 @@ theorem StoreOk.withNextId {s : Sys} {hist : List (List Entry)} (h : StoreOk s h
 theorem StoreOk.appendTail {s : Sys} {hist : List (List Entry)} (h : StoreOk s hist) {tail : List Entry}
     (hne : tail ≠ []) (hpos : termsPos tail = true)
     (hk : ∃ k, contigFrom k tail = true ∧ (∀ x ∈ s.buf.mem, x.index < k) ∧ (s.buf.mem ≠ [] → k = lastIdx s.buf.mem + 1) ∧
-      (s.buf.mem = [] → k = s.buf.purgedI + 1))
-    (hb : s.buf.segs.arch.length + tail.length ≤ maxSegs) :
+      (s.buf.mem = [] → k = s.buf.purgedI + 1)) :
     StoreOk (s.append tail) ((s.append tail).buf.mem :: hist) := by
   obtain ⟨k, hc, h1, h2, h3⟩ := hk
-  have hins := h.inv.insertToMemory hc hpos h1 h2 h3 hb
+  have hins := h.inv.insertToMemory hc hpos h1 h2 h3
   have hne' : tail.isEmpty = false := by simpa using hne
   have hmem' : (s.buf.insertToMemory tail).mem = s.buf.mem ++ tail := by
     have := congrArg Plain.ents hins.2.1
@@ -463,7 +462,7 @@ theorem StoreOk.appendTail {s : Sys} {hist : List (List Entry)} (h : StoreOk s h
   have hpi' : (s.buf.insertToMemory tail).purgedI = s.buf.purgedI := by
     have := congrArg Plain.anchorI hins.2.1
     simpa [Buf.abs, Plain.append] using this
-  have hd' : (s.buf.insertToMemory tail).durable = s.buf.durable := hins.2.2.2
+  have hd' : (s.buf.insertToMemory tail).durable = s.buf.durable := hins.2.2
   -- every new entry lies above `top`, hence above `durable_index`
   have hktop : s.buf.top < k := by
     unfold Buf.top
@@ -540,7 +539,9 @@ theorem lastIdx_mem_of_ne {l : List Entry} (h : l ≠ []) : ∃ x ∈ l, x.index
   | some x => exact ⟨x, List.mem_of_getLast? hg, by simp [lastIdx, hg]⟩
 
 theorem handleCmd_replace (s : Sys) (d : Nat) (es : List Entry) (hpos : 0 < lastIdx es) :
-    s.handleCmd (.replace d es) = { s.stReplace d es with pendingMax := max s.pendingMax (lastIdx es) } := by
+    s.handleCmd (.replace d es) =
+      { ({ s with pendingMax := min s.pendingMax (d - 1), buf := { s.buf with durable := min s.buf.durable (d - 1) } } : Sys).stReplace d es
+          with pendingMax := max (min s.pendingMax (d - 1)) (lastIdx es) } := by
   unfold lastIdx at hpos
   simp only [Sys.handleCmd, lastIdx]
   cases hg : es.getLast? with
@@ -549,16 +550,15 @@ theorem handleCmd_replace (s : Sys) (d : Nat) (es : List Entry) (hpos : 0 < last
 
 theorem core_after_replace {s : Sys} {hist : List (List Entry)} (h : StoreOk s hist) {d : Nat} {tail : List Entry}
     (htne : tail ≠ []) (hd1 : s.buf.minIdx ≤ d) (hd2 : d ≤ s.buf.maxIdx) (hne : s.buf.mem ≠ [])
-    (hc : contigFrom d tail = true) (hpos : termsPos tail = true)
-    (hb : s.buf.segs.arch.length + tail.length ≤ maxSegs) (hg : s.pendingMax ≤ lastIdx tail) :
+    (hc : contigFrom d tail = true) (hpos : termsPos tail = true) :
     let s2 := ({ s with buf := s.buf.replaceMem d tail, queue := [] } : Sys).handleCmd (.replace d tail)
     Core s2 (s2.buf.mem :: hist) ∧ s2.queue = [] ∧ s2.notify = s.notify ∧ s2.timerDue = false ∧
     (s.notify = false → ∀ e ∈ s2.buf.mem, e ∈ s2.store.v.ents) ∧ s2.buf = s.buf.replaceMem d tail := by
-  have hrep := h.inv.replaceMem hd1 hd2 hne hc hpos hb
+  have hrep := h.inv.replaceMem hd1 hd2 hne hc hpos
   have hmem' : (s.buf.replaceMem d tail).mem = s.buf.mem.filter (fun e => decide (e.index < d)) ++ tail := by
-    have := congrArg Plain.ents hrep.2.1; simpa [Buf.abs] using this
+    have := congrArg Plain.ents hrep.2; simpa [Buf.abs] using this
   have hpi' : (s.buf.replaceMem d tail).purgedI = s.buf.purgedI := by
-    have := congrArg Plain.anchorI hrep.2.1; simpa [Buf.abs] using this
+    have := congrArg Plain.anchorI hrep.2; simpa [Buf.abs] using this
   have hdur' := replaceMem_durable s.buf d tail
   obtain ⟨l, hl, hli⟩ := lastIdx_mem_of_ne htne
   have hld : d ≤ lastIdx tail := by have := (contigFrom_mem hc hl).1; omega
@@ -570,7 +570,13 @@ theorem core_after_replace {s : Sys} {hist : List (List Entry)} (h : StoreOk s h
   have hvf : Sorted (s.store.v.ents.filter (fun e => decide (e.index < d))) := h.vol.sorted.filter _
   have hpos' : 0 < lastIdx tail := by omega
   rw [handleCmd_replace _ _ _ hpos']
-  simp only [Sys.stReplace, Img.replaceRange, h.file, Option.map_none]
+  -- the IO task's own lowering of durable_index repeats what the caller already did
+  have hbeq : ({ s.buf.replaceMem d tail with durable := min (s.buf.replaceMem d tail).durable (d - 1) } : Buf) =
+      s.buf.replaceMem d tail := by
+    have : min (s.buf.replaceMem d tail).durable (d - 1) = (s.buf.replaceMem d tail).durable := by
+      rw [hdur']; omega
+    rw [this]
+  simp only [Sys.stReplace, Img.replaceRange, h.file, Option.map_none, hbeq]
   refine ⟨?_, by simp, by simp, by simp [h.timer], ?_, by simp⟩
   · refine { file := by simp, alive := h.alive, inv := hrep.1, vol := ?_, dTop := ?_, pTop := ?_,
              dHist := List.mem_cons_of_mem _ h.dHist, dDur := ?_, memHist := by simp, histOk := ?_ }
@@ -596,7 +602,7 @@ theorem core_after_replace {s : Sys} {hist : List (List Entry)} (h : StoreOk s h
         · have := (contigFrom_mem hc he').1; omega
     · show (s.buf.replaceMem d tail).durable ≤ (s.buf.replaceMem d tail).top
       unfold Buf.top; rw [hdur', hlast']; omega
-    · show max s.pendingMax (lastIdx tail) ≤ (s.buf.replaceMem d tail).top
+    · show max (min s.pendingMax (d - 1)) (lastIdx tail) ≤ (s.buf.replaceMem d tail).top
       unfold Buf.top; rw [hlast']; omega
     · intro e he hd
       have he' : e ∈ s.buf.mem.filter (fun e => decide (e.index < d)) ++ tail := by rw [← hmem']; exact he
@@ -744,14 +750,6 @@ def Op.plainSched : Op → Bool
   | .crash _ => false
   | _ => true
 
-/-- the excluded trigger of F72: a ReplaceRange is handled while `pending_max` is above the new end of the log -/
-def guardOk (s : Sys) : Op → Bool
-  | .fca pi pt es _ =>
-    match (fcaDecide s.buf pi pt es).1 with
-    | .replace _ tail => decide (s.pendingMax ≤ lastIdx tail)
-    | _ => true
-  | _ => true
-
 theorem StoreOk.shrink {s : Sys} {hist : List (List Entry)} {x : List Entry} (hx : x ∈ hist)
     (h : StoreOk s (x :: hist)) : StoreOk s hist :=
   have sub : ∀ y, y ∈ x :: hist → y ∈ hist := fun y hy => by
@@ -785,8 +783,7 @@ theorem blocking_finish {s1 s2 : Sys} {hist : List (List Entry)} {c : IOCmd} (hq
 
 theorem execOp_storeOk_fca {s : Sys} {hist : List (List Entry)} (h : StoreOk s hist) (hnil : [] ∈ hist)
     {prevI prevT : Nat} {es : List Entry} {sch : Sched}
-    (hwf : wfOp s.buf.abs (.fca prevI prevT es sch) = true) (hb : s.buf.segs.arch.length + es.length ≤ maxSegs)
-    (hplain : sch.plain = true) (hg : guardOk s (.fca prevI prevT es sch) = true) :
+    (hwf : wfOp s.buf.abs (.fca prevI prevT es sch) = true) (hplain : sch.plain = true) :
     StoreOk (execOp s (.fca prevI prevT es sch)).1 ((execOp s (.fca prevI prevT es sch)).1.buf.mem :: hist) := by
   obtain ⟨hprio, hclock⟩ := plain_eq hplain
   simp only [execOp, preClock, postClock, hclock, Bool.false_eq_true, if_false, hprio]
@@ -814,15 +811,13 @@ theorem execOp_storeOk_fca {s : Sys} {hist : List (List Entry)} (h : StoreOk s h
       have : s3.append [] = s3 := by simp [Sys.append]
       rw [this]
       exact hs3'.mono _ (contig_hist_of_inv hs3'.inv)
-    · refine hs3'.appendTail hes hwf.2 ⟨s.buf.purgedI + 1, by simpa [Buf.abs] using hwf.1, ?_, ?_, ?_⟩ ?_
+    · refine hs3'.appendTail hes hwf.2 ⟨s.buf.purgedI + 1, by simpa [Buf.abs] using hwf.1, ?_, ?_, ?_⟩
       · rw [hm3]; simp [Buf.resetMem]
       · rw [hm3]; simp [Buf.resetMem]
       · intro _; rw [hp3]; simp [Buf.resetMem]
-      · rw [hsg3]; simp [Buf.resetMem]; omega
   · simp only [wfOp, hr, if_false, Bool.and_eq_true] at hwf
     have hspec := h.inv.fcaDecide_spec (prevI := prevI) (prevT := prevT) (es := es) hwf.1.1 hwf.1.2 hwf.2 hr
-    simp only [guardOk] at hg
-    generalize hdec : fcaDecide s.buf prevI prevT es = dec at hspec hg ⊢
+    generalize hdec : fcaDecide s.buf prevI prevT es = dec at hspec ⊢
     obtain ⟨plan, tag⟩ := dec
     cases plan with
     | reset => exact absurd hspec hr
@@ -831,12 +826,11 @@ theorem execOp_storeOk_fca {s : Sys} {hist : List (List Entry)} (h : StoreOk s h
     | appendTail tail =>
       simp only [FcaSpec] at hspec
       obtain ⟨hne, hlen, _, hpos, hk, _⟩ := hspec
-      exact h.appendTail hne hpos hk (by omega)
+      exact h.appendTail hne hpos hk
     | replace d tail =>
       simp only [FcaSpec] at hspec
       obtain ⟨htne, hlen, _, hpos, hd1, hd2, hne, hc, _⟩ := hspec
-      simp only [decide_eq_true_eq] at hg
-      have hcr := core_after_replace h htne hd1 hd2 hne hc hpos (by omega) hg
+      have hcr := core_after_replace h htne hd1 hd2 hne hc hpos
       simp only at hcr
       obtain ⟨hc2, hq2, hn2, ht2, hf2, hb2⟩ := hcr
       have henq : ({ s with buf := s.buf.replaceMem d tail } : Sys).enqueue (.replace d tail) =
@@ -949,10 +943,9 @@ theorem execOp_storeOk_io {s : Sys} {hist : List (List Entry)} (h : StoreOk s hi
   rw [hm3, hb1]
   exact hs3
 
-/-- **Preservation of the invariant between operations** (reference store, default schedule, guarded). -/
+/-- **Preservation of the invariant between operations** (reference store, default schedule). -/
 theorem execOp_storeOk {s : Sys} {hist : List (List Entry)} (h : StoreOk s hist) (hnil : [] ∈ hist) {op : Op}
-    (hwf : wfOp s.buf.abs op = true) (hb : s.buf.segs.arch.length + opEntries op ≤ maxSegs)
-    (hplain : op.plainSched = true) (hg : guardOk s op = true) :
+    (hwf : wfOp s.buf.abs op = true) (hplain : op.plainSched = true) :
     StoreOk (execOp s op).1 ((execOp s op).1.buf.mem :: hist) := by
   cases op with
   | append es =>
@@ -963,8 +956,8 @@ theorem execOp_storeOk {s : Sys} {hist : List (List Entry)} (h : StoreOk s hist)
       have : s.append [] = s := by simp [Sys.append]
       rw [this]; exact h.mono _ (contig_hist_of_inv h.inv)
     · obtain ⟨h1, h2, h3⟩ := next_hyps h.inv
-      exact h.appendTail hes hwf.2 ⟨_, hwf.1, h1, h2, h3⟩ hb
-  | fca prevI prevT es sch => exact execOp_storeOk_fca h hnil hwf hb hplain hg
+      exact h.appendTail hes hwf.2 ⟨_, hwf.1, h1, h2, h3⟩
+  | fca prevI prevT es sch => exact execOp_storeOk_fca h hnil hwf hplain
   | purge ci ct sch => exact execOp_storeOk_purge h hwf hplain
   | reset sch => exact execOp_storeOk_reset h hplain
   | flush sch => exact execOp_storeOk_flush h hplain
